@@ -189,7 +189,12 @@ func (fc *funcContext) translateStmt(stmt ast.Stmt, label *types.Label) {
 
 	case *ast.RangeStmt:
 		refVar := fc.newLocalVariable("_ref")
-		fc.Printf("%s = %s;", refVar, fc.translateExpr(s.X))
+		if _, isArray := fc.typeOf(s.X).Underlying().(*types.Array); isArray && s.Value != nil && !isBlank(s.Value) {
+			// Go ranges over a copy of an array operand when the value variable is used.
+			fc.Printf("%s = $clone(%s, %s);", refVar, fc.translateExpr(s.X), fc.typeName(fc.typeOf(s.X)))
+		} else {
+			fc.Printf("%s = %s;", refVar, fc.translateExpr(s.X))
+		}
 
 		switch t := fc.typeOf(s.X).Underlying().(type) {
 		case *types.Basic:
